@@ -102,6 +102,26 @@ def _damage(rng, sc, label):
     return state, [["flip", j, off]]
 
 
+def _aimed_payloads(tier):
+    """(class, payload name or None, tree maker, metafile kinds): the directory whose only file is named like it (and the
+       nested variant) for every v2-view kind, and multi-file payloads for the metafiles of another encoder whose ordinary
+       files carry attr x / h / xh (plain and with pad entries)"""
+    same = rc.V2_KINDS + ["v1", "ref-v1"]
+    out = [
+        (rc.SAME_NAME_LABEL, "data", lambda r, pl: {("data",): r.randbytes(pl + 9)}, same),
+        (rc.SAME_NAME_NESTED_LABEL, "data", lambda r, pl: {("data", "data"): r.randbytes(2 * pl + 1)}, same),
+        (rc.ATTR_LABEL, None, lambda r, pl: {("a.sh",): r.randbytes(pl + 9), ("b",): b"", (".hidden",): r.randbytes(100),
+                                             ("d", "run"): r.randbytes(2 * pl)}, rc.ATTR_KINDS + ["v1-align"]),
+    ]
+    if tier == "thorough":
+        out += [
+            (rc.SAME_NAME_LABEL, "data", lambda r, pl: {("data",): r.randbytes(r.choice([1, pl, 3 * pl + 5]))}, same),
+            (rc.ATTR_LABEL, None, lambda r, pl: {("x",): r.randbytes(pl), ("y",): r.randbytes(pl - 1), ("z",): r.randbytes(3)},
+             rc.ATTR_KINDS),
+        ]
+    return out
+
+
 def tie_pipeline(ctx, mode, model_ok):
     """
     every metafile kind x {intact, one file truncated / removed / one byte flipped (C05: intact only)} x content path in
@@ -113,22 +133,33 @@ def tie_pipeline(ctx, mode, model_ok):
     jobs = []       # (description, (metafile hex, path field, table), impl)
     with core.Scratch("vrpl_") as tmp:
         os.environ["HOME"] = tmp
-        for i in range(nsc):
+        aimed = _aimed_payloads(ctx.tier)
+        for i in range(nsc + len(aimed)):
             rng = random.Random(ctx.rng.getrandbits(64))
             pl = [16384, 32768][i % 2] if i % 4 != 3 else rng.choice([16384, 32768])
             base = os.path.join(tmp, f"s{i}", "w")
-            sc = rc.Scenario(base, rng, pl=pl, tree=_gen_payload(rng, i, pl))
+            if i < nsc:
+                sc = rc.Scenario(base, rng, pl=pl, tree=_gen_payload(rng, i, pl))
+                aim, kinds = None, rc.KINDS
+            else:
+                aim, name, mktree, kinds = aimed[i - nsc]
+                sc = rc.Scenario(base, rng, pl=pl, name=name, tree=mktree(rng, pl), kinds=kinds)
             for k in sc.errors:
                 ctx.notes.append(f"pipeline: creating the {k} metafile raised {sc.errors[k]} (payload {i}); kind skipped")
             # group the kinds of this payload by state so that the table (with contents) is built once per state
             plan = {}
-            for k, kind in enumerate(rc.KINDS):
+            for k, kind in enumerate(kinds):
                 if kind not in sc.metas:
                     continue
-                j = i * len(rc.KINDS) + k
+                j = i * len(kinds) + k
                 label = states[(i + k) % len(states)]
                 via = VIAS[(j // len(states) + k) % 2]
                 plan.setdefault(label, []).append((kind, via))
+                if aim:
+                    # the aimed payloads: the intact state of every kind through root AND parent as well
+                    for v in VIAS:
+                        if ("intact", v) != (label, via):
+                            plan.setdefault("intact", []).append((kind, v))
             for label, combos in plan.items():
                 state, dmg = _damage(rng, sc, label)
                 sc.set_state(state)
@@ -143,6 +174,7 @@ def tie_pipeline(ctx, mode, model_ok):
                     ctx.case(key=("pipeline", i, kind, label, via),
                              classes=["pipeline: metafile " + kind, "pipeline: state " + label, "pipeline: via " + via,
                                       "pipeline: " + ("single-file payload" if sc.single else "multi-file payload"),
+                                      "pipeline: " + (aim or "generated payload"),
                                       "pipeline: " + ("Checker raised" if isinstance(impl, str) else "Checker ran to exhaustion")],
                              nontrivial=True, sample=desc if len(jobs) in (2, 11) else None)
                 sc.restore()
